@@ -184,11 +184,21 @@ func (e *Env) DrawSig(t *rapid.T, minParams, maxParams, maxResults int, modes []
 				}
 			})
 		}
-		for _, p := range s.Params[1:] {
-			collect(p.Type)
+		// which parameter gets the name: the first one in half of the cases, any other one (the last one is the one
+		// Apply binds) otherwise; the name comes from the other parameters and, not always, from the results
+		k := 0
+		if rapid.Bool().Draw(t, "shadowing-not-first") {
+			k = rapid.IntRange(1, n-1).Draw(t, "shadowing-index")
 		}
-		for _, r := range s.Results {
-			collect(r)
+		for i, p := range s.Params {
+			if i != k {
+				collect(p.Type)
+			}
+		}
+		if k == 0 || rapid.Bool().Draw(t, "shadowing-results-too") {
+			for _, r := range s.Results {
+				collect(r)
+			}
 		}
 		if rapid.IntRange(0, 3).Draw(t, "shadow-any") == 0 {
 			// the empty interface is printed as any: the last parameter gets that type and the first one that name
@@ -196,7 +206,7 @@ func (e *Env) DrawSig(t *rapid.T, minParams, maxParams, maxResults int, modes []
 			s.Params[0].Name = "any"
 			s.Mode = "shadowing"
 		} else if len(names) > 0 {
-			s.Params[0].Name = names[rapid.IntRange(0, len(names)-1).Draw(t, "shadowed")]
+			s.Params[k].Name = names[rapid.IntRange(0, len(names)-1).Draw(t, "shadowed")]
 			s.Mode = "shadowing"
 		}
 	}
